@@ -47,6 +47,12 @@ type Outcome struct {
 	RawBody   []byte
 	Delay     time.Duration
 	Hold      chan struct{} // if non-nil the reply is sent only after the channel is closed
+	// RawReply refinements: a version byte other than the connection's (0: default), another
+	// stream id than the request's, a declared length other than len(RawBody)
+	RawVersion byte
+	RawStream  *int16
+	RawLen     *int32
+	ThenClose  bool // close the connection after the raw reply
 }
 
 // Rec is one frame received by the backend.
@@ -415,6 +421,26 @@ func (b *Backend) DropRegistered() int {
 	return len(targets)
 }
 
+// EventRaw writes the given bytes on every registered connection.
+func (b *Backend) EventRaw(raw []byte) int {
+	b.mu.Lock()
+	var targets []*Conn
+	for _, h := range b.Hosts {
+		h.mu.Lock()
+		for c := range h.conns {
+			if c.registered {
+				targets = append(targets, c)
+			}
+		}
+		h.mu.Unlock()
+	}
+	b.mu.Unlock()
+	for _, c := range targets {
+		c.writeRaw(raw)
+	}
+	return len(targets)
+}
+
 // Event sends an event frame on every registered connection.
 func (b *Backend) Event(evt message.Message) int {
 	b.mu.Lock()
@@ -509,7 +535,11 @@ func (c *Conn) sendMsgMod(stream int16, msg message.Message, mod func(*frame.Fra
 		frm.SetCompress(true)
 	}
 	if err := c.codec.EncodeFrame(frm, &buf); err != nil {
-		panic(fmt.Sprintf("fb: cannot encode %T: %v", msg, err))
+		// a reply this backend cannot express (e.g. a keyspace name the protocol cannot carry): answer as a server would
+		buf.Reset()
+		if err2 := c.codec.EncodeFrame(frame.NewFrame(c.version, stream, &message.Invalid{ErrorMessage: "fb: " + err.Error()}), &buf); err2 != nil {
+			panic(fmt.Sprintf("fb: cannot encode %T: %v", msg, err))
+		}
 	}
 	c.writeRaw(buf.Bytes())
 }
@@ -705,6 +735,9 @@ func (c *Conn) handle(hdr, body, raw []byte) bool {
 			be.mu.Lock()
 			rec.Kind = "use"
 			bad, isBad := be.BadKeyspaces[ks]
+			if strings.Trim(ks, "\"") == "" || strings.ContainsAny(ks, "\x00;") {
+				bad, isBad = &message.Invalid{ErrorMessage: "fb: invalid keyspace name"}, true
+			}
 			if !isBad {
 				c.keyspace = ks
 			}
@@ -874,7 +907,23 @@ func (c *Conn) apply(stream int16, out Outcome, token string) bool {
 			go c.host.dropAll()
 			return false
 		case RawReply:
-			c.writeRaw(RawFrameBytes(byte(c.version), out.RawFlags, stream, out.RawOpcode, out.RawBody))
+			v, st := byte(c.version)|0x80, stream
+			if out.RawVersion != 0 {
+				v = out.RawVersion
+			}
+			if out.RawStream != nil {
+				st = *out.RawStream
+			}
+			b := RawFrameBytes(0, out.RawFlags, st, out.RawOpcode, out.RawBody)
+			b[0] = v
+			if out.RawLen != nil {
+				l := uint32(*out.RawLen)
+				b[5], b[6], b[7], b[8] = byte(l>>24), byte(l>>16), byte(l>>8), byte(l)
+			}
+			c.writeRaw(b)
+			if out.ThenClose {
+				return false
+			}
 		}
 		return true
 	}
